@@ -21,6 +21,71 @@ impl EngineModel {
                 && final(self).z@ == old(self).z@.insert((db as int, key@), zmembers(old(self).z@, db as int, key@).insert(member@, score)),
     { unimplemented!() }
 }
+/// the score text a reply carries (`format!("{}", score)` / `score.to_string()`: float formatting is outside the verifier)
+pub uninterp spec fn score_text(x: f64) -> RespFrame;
+#[verifier::external_body]
+pub fn verif_score_frame(x: f64) -> (r: RespFrame) ensures r == score_text(x), r is BulkString, { unimplemented!() }
+impl EngineModel {
+    #[verifier::external_body]
+    pub fn zscore(&mut self, db: usize, key: &[u8], member: &[u8]) -> (r: Result<Option<f64>>)
+        ensures final(self).ds@ == old(self).ds@, final(self).ttl@ == old(self).ttl@, final(self).z@ == old(self).z@,
+            (ds_get(old(self).ds@, db as int, key@) matches Some(dv) && !(dv is ZSet)) ==> r is Err,
+            !(ds_get(old(self).ds@, db as int, key@) matches Some(dv) && !(dv is ZSet)) ==>
+                r == Ok::<Option<f64>, FerrousError>(if zmembers(old(self).z@, db as int, key@).contains_key(member@) { Some(zmembers(old(self).z@, db as int, key@)[member@]) } else { None }),
+    { unimplemented!() }
+    #[verifier::external_body]
+    pub fn zcard(&mut self, db: usize, key: &[u8]) -> (r: Result<usize>)
+        ensures final(self).ds@ == old(self).ds@, final(self).ttl@ == old(self).ttl@, final(self).z@ == old(self).z@,
+            (ds_get(old(self).ds@, db as int, key@) matches Some(dv) && !(dv is ZSet)) ==> r is Err,
+            !(ds_get(old(self).ds@, db as int, key@) matches Some(dv) && !(dv is ZSet)) ==> (r matches Ok(n) && n == zmembers(old(self).z@, db as int, key@).dom().len()),
+    { unimplemented!() }
+    /// removing the last member removes the key (and its TTL)
+    #[verifier::external_body]
+    pub fn zrem(&mut self, db: usize, key: &[u8], member: &[u8]) -> (r: Result<bool>)
+        ensures
+            (ds_get(old(self).ds@, db as int, key@) matches Some(dv) && !(dv is ZSet)) ==> r is Err && final(self).ds@ == old(self).ds@ && final(self).ttl@ == old(self).ttl@ && final(self).z@ == old(self).z@,
+            !(ds_get(old(self).ds@, db as int, key@) matches Some(dv) && !(dv is ZSet)) ==> ({
+                let zm = zmembers(old(self).z@, db as int, key@);
+                &&& r == Ok::<bool, FerrousError>(zm.contains_key(member@))
+                &&& !zm.contains_key(member@) ==> final(self).ds@ == old(self).ds@ && final(self).ttl@ == old(self).ttl@ && final(self).z@ == old(self).z@
+                &&& zm.contains_key(member@) && zm.remove(member@).dom().len() > 0 ==> final(self).ds@ == old(self).ds@ && final(self).ttl@ == old(self).ttl@
+                        && final(self).z@ == old(self).z@.insert((db as int, key@), zm.remove(member@))
+                &&& zm.contains_key(member@) && zm.remove(member@).dom().len() == 0 ==> final(self).ds@ == old(self).ds@.remove((db as int, key@))
+                        && final(self).ttl@ == old(self).ttl@.remove((db as int, key@)) && final(self).z@ == old(self).z@.remove((db as int, key@))
+            }),
+    { unimplemented!() }
+}
+impl EngineModel {
+    /// ASSUMED CONTRACT summarising shard_zsets::zincrby: NaN increment, a NaN sum, and a key of another type are refused
+    /// without change; otherwise the member's score becomes the returned sum (never NaN)
+    #[verifier::external_body]
+    pub fn zincrby(&mut self, db: usize, key: Vec<u8>, member: Vec<u8>, increment: f64) -> (r: Result<f64>)
+        ensures final(self).ttl@ == old(self).ttl@,
+            r is Err ==> final(self).ds@ == old(self).ds@ && final(self).z@ == old(self).z@,
+            (f64_is_nan(increment) || (ds_get(old(self).ds@, db as int, key@) matches Some(dv) && !(dv is ZSet))) ==> r is Err,
+            r matches Ok(s) ==> !f64_is_nan(s) && final(self).ds@ == old(self).ds@.insert((db as int, key@), DV::ZSet)
+                && final(self).z@ == old(self).z@.insert((db as int, key@), zmembers(old(self).z@, db as int, key@).insert(member@, s)),
+    { unimplemented!() }
+}
+/// the key holds a value that is not a sorted set
+pub open spec fn other_type(ds: DS, db: int, k: Seq<u8>) -> bool { ds_get(ds, db, k) matches Some(dv) && !(dv is ZSet) }
+/// ZREM key m1 ..: members removed left to right; the key disappears with its last member; non-bulk arguments are skipped
+pub open spec fn zrem_upto(m: EngineModel, db: int, k: Seq<u8>, parts: Seq<RespFrame>, n: int) -> (int, DS, Map<(int, Seq<u8>), int>, ZS)
+    decreases n
+{
+    if n <= 2 { (0, m.ds@, m.ttl@, m.z@) } else {
+        let p = zrem_upto(m, db, k, parts, n - 1);
+        match arg(parts, n - 1) {
+            None => p,
+            Some(x) => {
+                let zm = zmembers(p.3, db, k);
+                if !zm.contains_key(x) { p }
+                else if zm.remove(x).dom().len() > 0 { (p.0 + 1, p.1, p.2, p.3.insert((db, k), zm.remove(x))) }
+                else { (p.0 + 1, p.1.remove((db, k)), p.2.remove((db, k)), p.3.remove((db, k))) }
+            },
+        }
+    }
+}
 pub struct MonStub { pub g: Ghost<int> }
 pub struct Server { pub storage: EngineModel, pub monitoring: MonStub }
 pub open spec fn zrefused(r: Result<RespFrame>, o: Server, f: Server) -> bool {
@@ -128,6 +193,89 @@ impl Server {
                         && final(self).storage.ds@ == old(self).storage.ds@.insert((db as int, k), DV::ZSet)
                         && final(self).storage.z@ == old(self).storage.z@.insert((db as int, k), res.1)
                         && final(self).storage.ttl@ == old(self).storage.ttl@
+            }),
+//@@ body
+//@@ end
+
+//@@ unit handle_zrem fn src/network/server.rs Server::handle_zrem
+//@@   rewrite R3
+//@@   params drop "&self" add "&mut self"
+//@@   rewrite RFORC 0
+//@@   loop 0
+//@@|     invariant
+//@@|         2 <= i__n <= i__end, i__end == parts@.len(), 0 <= removed <= i__n - 2, arg(parts@, 1) == Some(key@),
+//@@|         other_type(old(self).storage.ds@, db as int, key@) && all_bulk(parts@, 2) ==> i__n == 2,
+//@@|         other_type(old(self).storage.ds@, db as int, key@) ==> self.storage.ds@ == old(self).storage.ds@ && self.storage.ttl@ == old(self).storage.ttl@ && self.storage.z@ == old(self).storage.z@,
+//@@|         !other_type(old(self).storage.ds@, db as int, key@) ==> !other_type(self.storage.ds@, db as int, key@)
+//@@|             && (removed as int, self.storage.ds@, self.storage.ttl@, self.storage.z@) == zrem_upto(old(self).storage, db as int, key@, parts@, i__n as int),
+//@@|     decreases i__end - i__n,
+    fn handle_zrem(&mut self, parts: &[RespFrame], db: usize) -> (r: Result<RespFrame>)
+        ensures
+            (parts@.len() < 3 || arg(parts@, 1) is None) ==> zrefused(r, *old(self), *final(self)),
+            parts@.len() >= 3 && arg(parts@, 1) is Some ==> ({
+                let k = arg(parts@, 1)->Some_0;
+                if ds_get(old(self).storage.ds@, db as int, k) matches Some(dv) && !(dv is ZSet) {
+                    // (member arguments that are not bulk strings are skipped; a real client sends bulk strings only)
+                    (all_bulk(parts@, 2) ==> !(r matches Ok(f) && !(f is Error))) && final(self).storage.ds@ == old(self).storage.ds@ && final(self).storage.z@ == old(self).storage.z@ && final(self).storage.ttl@ == old(self).storage.ttl@
+                } else {
+                    let s = zrem_upto(old(self).storage, db as int, k, parts@, parts@.len() as int);
+                    r == Ok::<RespFrame, FerrousError>(RespFrame::Integer(s.0 as i64)) && final(self).storage.ds@ == s.1 && final(self).storage.ttl@ == s.2 && final(self).storage.z@ == s.3
+                }
+            }),
+//@@ body
+//@@ end
+
+//@@ unit handle_zincrby fn src/network/server.rs Server::handle_zincrby
+//@@   rewrite R3
+//@@   params drop "&self" add "&mut self"
+//@@   rewrite RCALL parse "String::from_utf8_lossy(bytes)" verif_cow_parse
+//@@   rewrite RXPR "new_score.to_string()" "new_score"
+//@@   rewrite RT "RespFrame::from_string(" "verif_score_frame("
+    fn handle_zincrby(&mut self, parts: &[RespFrame], db: usize) -> (r: Result<RespFrame>)
+        ensures
+            (parts@.len() != 4 || arg(parts@, 1) is None || num_arg::<f64>(parts@, 2) is None || arg(parts@, 3) is None) ==> zrefused(r, *old(self), *final(self)),
+            parts@.len() == 4 && arg(parts@, 1) is Some && num_arg::<f64>(parts@, 2) is Some && arg(parts@, 3) is Some ==> ({
+                let k = arg(parts@, 1)->Some_0; let inc = num_arg::<f64>(parts@, 2)->Some_0; let m = arg(parts@, 3)->Some_0;
+                // an increment that is not a number, or a key of another type: no success reply, nothing changes
+                &&& (f64_is_nan(inc) || (ds_get(old(self).storage.ds@, db as int, k) matches Some(dv) && !(dv is ZSet))) ==>
+                        !(r matches Ok(f) && !(f is Error)) && final(self).storage.ds@ == old(self).storage.ds@ && final(self).storage.z@ == old(self).storage.z@
+                // a success reply carries the score that is now stored for the member, and that score is a number
+                &&& (r matches Ok(f) && !(f is Error)) ==> exists|s: f64| !f64_is_nan(s) && r->Ok_0 == score_text(s)
+                        && final(self).storage.z@ == old(self).storage.z@.insert((db as int, k), zmembers(old(self).storage.z@, db as int, k).insert(m, s))
+                // a failure leaves everything as it was
+                &&& !(r matches Ok(f) && !(f is Error)) ==> final(self).storage.ds@ == old(self).storage.ds@ && final(self).storage.z@ == old(self).storage.z@
+            }),
+//@@ body
+//@@ end
+
+//@@ unit handle_zscore fn src/network/server.rs Server::handle_zscore
+//@@   params drop "&self" add "&mut self"
+//@@   rewrite RT "format!(\"{}\", score)" "score"
+//@@   rewrite RT "RespFrame::from_string(score_str)" "verif_score_frame(score_str)"
+    fn handle_zscore(&mut self, parts: &[RespFrame], db: usize) -> (r: Result<RespFrame>)
+        ensures
+            final(self).storage.ds@ == old(self).storage.ds@ && final(self).storage.ttl@ == old(self).storage.ttl@ && final(self).storage.z@ == old(self).storage.z@,
+            (parts@.len() != 3 || arg(parts@, 1) is None || arg(parts@, 2) is None) ==> (r matches Ok(f) && f is Error),
+            parts@.len() == 3 && arg(parts@, 1) is Some && arg(parts@, 2) is Some ==> ({
+                let k = arg(parts@, 1)->Some_0; let m = arg(parts@, 2)->Some_0; let zm = zmembers(old(self).storage.z@, db as int, k);
+                if ds_get(old(self).storage.ds@, db as int, k) matches Some(dv) && !(dv is ZSet) { !(r matches Ok(f) && !(f is Error)) }
+                else if zm.contains_key(m) { r == Ok::<RespFrame, FerrousError>(score_text(zm[m])) }          // the member's latest score
+                else { r == Ok::<RespFrame, FerrousError>(RespFrame::BulkString(None)) }
+            }),
+//@@ body
+//@@ end
+
+//@@ unit handle_zcard fn src/network/server.rs Server::handle_zcard
+//@@   rewrite R3
+//@@   params drop "&self" add "&mut self"
+    fn handle_zcard(&mut self, parts: &[RespFrame], db: usize) -> (r: Result<RespFrame>)
+        ensures
+            final(self).storage.ds@ == old(self).storage.ds@ && final(self).storage.ttl@ == old(self).storage.ttl@ && final(self).storage.z@ == old(self).storage.z@,
+            (parts@.len() != 2 || arg(parts@, 1) is None) ==> (r matches Ok(f) && f is Error),
+            parts@.len() == 2 && arg(parts@, 1) is Some ==> ({
+                let k = arg(parts@, 1)->Some_0;
+                if ds_get(old(self).storage.ds@, db as int, k) matches Some(dv) && !(dv is ZSet) { !(r matches Ok(f) && !(f is Error)) }
+                else { r == Ok::<RespFrame, FerrousError>(RespFrame::Integer(zmembers(old(self).storage.z@, db as int, k).dom().len() as i64)) }
             }),
 //@@ body
 //@@ end
